@@ -10,7 +10,11 @@ Funs == << <<"e", "x", "p">>, <<"g">>, <<"m", "a", "x">> >>
 Calls1 == {P!Call(Funs[f], <<Atoms[i]>>) : f \in DOMAIN Funs, i \in DOMAIN Atoms}
              \cup {P!Call(Funs[f], <<Atoms[i], Atoms[j]>>) : f \in DOMAIN Funs, i \in DOMAIN Atoms, j \in DOMAIN Atoms}
 Calls2 == {P!Call(Funs[f], <<c, Atoms[j]>>) : f \in {1, 2}, c \in {P!Call(Funs[g], <<Atoms[i]>>) : g \in {2, 3}, i \in DOMAIN Atoms}, j \in DOMAIN Atoms}
-Exprs == IF Depth = 1 THEN Calls1 ELSE Calls1 \cup Calls2
+\* three and four quoted names whose sanitised spellings collide pairwise (a b, a+b, a-b, a_b)
+Coll == << P!Q(<<"a", " ", "b">>), P!Q(<<"a", "+", "b">>), P!Q(<<"a", "-", "b">>), P!Q(<<"a", "_", "b">>) >>
+Calls3 == {P!Call(Funs[2], <<Coll[i], Coll[j], Coll[k]>>) : i \in DOMAIN Coll, j \in DOMAIN Coll, k \in DOMAIN Coll}
+             \cup {P!Call(Funs[2], <<Coll[p[1]], Coll[p[2]], Coll[p[3]], Coll[p[4]]>>) : p \in {q \in [1..4 -> 1..4] : \A u, v \in 1..4 : u # v => q[u] # q[v]}}
+Exprs == IF Depth = 1 THEN Calls1 \cup Calls3 ELSE Calls1 \cup Calls2 \cup Calls3
 
 VARIABLE e
 Init == e \in Exprs
